@@ -467,6 +467,10 @@ func (c *Ctx) enterBlock(s *State, fr *Frame) bool {
 		c.bindRangeIdx(s, fr, b, ord)
 		env := c.loopEnv(s, fr, snap)
 		if lc != nil {
+			for i, be := range lc.BodyEnsures {
+				env.loopCallBase = snap.callLogLen
+				c.obligeClause(s, env, "body", loopLabel(ord, be, i), be)
+			}
 			for i, inv := range lc.Invariants {
 				c.obligeClause(s, env, "inv-step", loopLabel(ord, inv, i), inv)
 			}
@@ -531,13 +535,35 @@ func (c *Ctx) enterBlock(s *State, fr *Frame) bool {
 			cell.val = c.freshVal(s, al.Comment, al.Type().(*types.Pointer).Elem())
 		}
 	}
+	// map iterators advanced inside the loop: their set of already-yielded keys is loop-carried
+	for v, rv := range fr.regs {
+		it, ok := rv.(RangeIterV)
+		if !ok {
+			continue
+		}
+		rg, isRange := v.(*ssa.Range)
+		if !isRange {
+			continue
+		}
+		inLoop := false
+		for _, ref := range *rg.Referrers() {
+			if nx, ok := ref.(*ssa.Next); ok && fr.fi.inLoop[b][nx.Block()] {
+				inLoop = true
+			}
+		}
+		if inLoop {
+			it.Visited = c.freshConst(s, "visited", c.visitedSort(it.MT))
+			fr.regs[v] = it
+			fr.src["visited"] = GhostSetV{Term: it.Visited}
+		}
+	}
 	// bump allocation base: objects allocated in earlier iterations are >= old base but < new base
 	nb := c.freshConst(s, "allocL", SInt)
 	c.assume(s, fmt.Sprintf("(>= %s %s)", nb, c.allocTerm(s)))
 	s.allocBase = nb
 	s.allocCnt = 0
 	c.havocLoop(s, mods, preSnap.allocBase)
-	snap := &loopSnap{heap: s.snapshot(), allocBase: preSnap.allocBase, mods: mods}
+	snap := &loopSnap{heap: s.snapshot(), allocBase: preSnap.allocBase, mods: mods, callLogLen: len(s.calllog)}
 	env = c.loopEnv(s, fr, snap)
 	if lc != nil {
 		for _, inv := range lc.Invariants {
